@@ -38,7 +38,7 @@ let field key toks =
 
 let fieldi key toks = match field key toks with Some v -> (try int_of_string v with _ -> -1) | None -> -1
 
-let is_pattern = function "pubsub" | "event" | "reqres" | "blackboard" | "reqres2" | "rrovf" -> true | _ -> false
+let is_pattern = function "pubsub" | "event" | "reqres" | "blackboard" | "reqres2" | "rrovf" | "ps2" -> true | _ -> false
 let pattern_of = function
   | "pubsub" -> Some M.PubSub | "event" -> Some M.Event | "reqres" -> Some M.ReqRes | "blackboard" -> Some M.Blackboard
   | _ -> None
@@ -67,7 +67,7 @@ let class_of kind detail =
   let keep = List.filter (fun t ->
       not (String.length t >= 6 && String.sub t 0 6 = "after=") && not (String.length t >= 6 && String.sub t 0 6 = "order=")) parts in
   let rec strip = function
-    | "canary" :: _ -> ["canary"]
+    | "canary" :: r -> "canary" :: List.filter (fun t -> String.contains t '-') r   (* drop the value, keep the markers *)
     | x :: r -> (if String.length x >= 9 && String.sub x 0 9 = "received-" then
                    (if String.length x >= 11 && String.sub x 0 11 = "received-[]" then "received-nothing" else "received") else x) :: strip r
     | [] -> [] in
@@ -109,6 +109,42 @@ let compare_counts line pname fs g st counts_txt =
    | Some "-" | None -> ()
    | Some x -> mismatch "model" line "unmodelled-resource-kind" "-" x)
 
+(* ---- preconditions of the two known findings, decided from the drop order (never from the symptom) ---- *)
+let index_of names n = let r = ref (-1) in Array.iteri (fun i x -> if x = n && !r < 0 then r := i) names; !r
+let chrono dropped = List.rev dropped
+let pos_in l x = let rec go i = function [] -> -1 | y :: r -> if y = x then i else go (i + 1) r in go 0 l
+
+(* F2: the probed Sample is alive, ITS subscriber has been dropped, and the publisher that produced it was
+   alive in a probe round at or after that drop (so it ran update_connections and loaned again); the
+   value now in the chunk is one the publisher's probe writes (7000..7999) *)
+let f2_precondition names dropped res =
+  let sub = index_of names "subscriber" and pub = index_of names "publisher" in
+  let order = chrono dropped in
+  let value = (try Scanf.sscanf res "canary:%x" (fun v -> v) with _ -> -1) in
+  sub >= 0 && pub >= 0 && List.mem sub order
+  && (not (List.mem pub order) || pos_in order pub > pos_in order sub)
+  && value >= 7000 && value < 8000
+
+(* node directory finding: for each node, the objects that hold its SharedNode are its Node handle, its
+   service handle and the port-side objects created through that service handle (port A side on node 0,
+   port B side on the last node); the directory of a node stays behind iff the LAST of them to be dropped
+   is a port-side object.  Returns the number of directories predicted to stay. *)
+let side_a = ["publisher"; "sample_mut"; "notifier"; "client"; "pending_response"; "response"; "writer"; "entry_handle_mut";
+              "pending_a"; "pending_b"; "response_b"; "publisher1"; "publisher2"]
+let predicted_node_dirs names nn dropped =
+  let order = chrono dropped in
+  let n = Array.length names in
+  let count = ref 0 in
+  for node = 0 to nn - 1 do
+    let holders = List.filter (fun k ->
+        if k < nn then k = node
+        else if k < 2 * nn then k - nn = node
+        else (if List.mem names.(k) side_a then node = 0 else node = nn - 1)) (List.init n (fun k -> k)) in
+    let last = List.fold_left (fun best k -> if pos_in order k > pos_in order best then k else best) (List.hd holders) holders in
+    if last >= 2 * nn then incr count
+  done;
+  !count
+
 type cur = {
   hdr : string; pname : string; two : bool; fs : bool; g : M.inst; h : M.nat list; fuel : M.nat;
   names : string array; mutable st : M.st option; mutable dropped : int list; mutable ended : bool;
@@ -146,7 +182,7 @@ let () =
          Hashtbl.replace distinct (pname ^ soi (fieldi "nodes" toks) ^ order) ();
          (match is_pattern pname with
           | false -> mismatch "model" short "unknown-pattern" "-" pname
-          | true when pname = "rrovf" ->
+          | true when pname = "rrovf" || pname = "ps2" ->
             (* behavioural family without a model instance: only the property-side checks apply *)
             cur := Some { hdr = short; pname; two; fs; g = []; h = []; fuel = M.O; names; st = None; dropped = []; ended = false }
           | true ->
@@ -203,6 +239,9 @@ let () =
                     let held = if Array.exists (fun n -> n = "response_b") c.names
                                   && not (List.exists (fun k -> name_of c k = "response_b") c.dropped)
                                then ":while-response_b-is-held" else "" in
+                    let held = if c.pname = "pubsub" && name_of c j = "sample" && String.length res >= 7 && String.sub res 0 7 = "canary:"
+                                  && f2_precondition c.names c.dropped res
+                               then held ^ ":its-subscriber-dropped-and-publisher-loaned-afterwards" else held in
                     mismatch "spec" line ("survivor:" ^ name_of c j ^ ":" ^ res ^ held ^ ":after=" ^ after) "ok" res
                   end) probed
             | _ -> mismatch "model" line "unparsed-line" "-" "-")
@@ -218,7 +257,11 @@ let () =
            let get k = match field k toks with Some v -> v | None -> "?" in
            if get "left" <> "-" then begin
              bump extra "leftover";
-             mismatch "spec" line ("leftover:" ^ get "left" ^ ":order=" ^ after) "-" (get "left")
+             let nn = if c.two then 2 else 1 in
+             let pred = if c.fs && List.length c.dropped = Array.length c.names then predicted_node_dirs c.names nn c.dropped else -1 in
+             let marker = if pred > 0 && get "left" = "node_dirx" ^ soi pred then ":last-holder-of-each-left-node-is-a-port-side-object"
+                          else ":predicted-node-dirs=" ^ soi pred in
+             mismatch "spec" line ("leftover:" ^ get "left" ^ marker ^ ":order=" ^ after) "-" (get "left")
            end;
            if get "nodes" <> "0" || get "svcs" <> "0" then
              mismatch "spec" line ("listed-after-shutdown:order=" ^ after) "nodes=0,svcs=0" ("nodes=" ^ get "nodes" ^ ",svcs=" ^ get "svcs");
